@@ -93,11 +93,12 @@ func NewVoteDriver(n int, symmetry bool, full bool) *VoteDriver {
 	return d
 }
 
-// NewVoteTimingDriver restricts the alphabet to setConfig votes for two ids by every member and
+// NewVoteTimingDriver restricts the alphabet to votes for three ids (two setConfig, one cheque) by every member and
 // clock steps, with more waits allowed: histories of two live ballots whose gaps interleave.
 func NewVoteTimingDriver(n int) *VoteDriver {
 	d := &VoteDriver{N: n, Symmetry: n >= 3, MaxAdv: 4}
-	for _, k := range []string{"setA", "setB"} {
+	// three decision ids, so that three ballots can be pending at once and be completed in any order
+	for _, k := range []string{"setA", "setB", "cheque"} {
 		for i := 0; i < n; i++ {
 			d.ops = append(d.ops, voteOp{kind: k, who: i})
 		}
